@@ -51,7 +51,8 @@ CHECKS = {
                                       "remove-entity:middle-of>=3", "insert-after:middle-of>=3", "insert-after:first-of>=3",
                                       "remove-sibling:middle-of>=3", "remove-sibling:first-of>=3"]),
         dict(prop="C09.table", harness="table_pbt", quick=dict(count=3000, workers=4), thorough=dict(count=120000, workers=16),
-             essential=_V2_SCHEMAS + ["entity:add_back", "entity:remove-non-last", "entity:clear", "playlist:remove"])]),
+             essential=_V2_SCHEMAS + ["entity:add_back", "entity:remove-non-last", "entity:clear", "playlist:remove", "playlist:add-before-sibling",
+                                      "playlist:move-reorder", "playlist:move-reparent"])]),
     "C10": dict(level="exploration", parts=[
         dict(prop="REG", harness="api_pbt", quick=dict(count=0, workers=1), thorough=dict(count=0, workers=1)),  # regression scenarios
         dict(prop="C10", harness="api_pbt", quick=dict(count=2000, workers=8), thorough=dict(count=60000, workers=16),
@@ -79,7 +80,10 @@ CHECKS = {
     "C17": dict(level="exploration", parts=[
         dict(prop="C17", harness="schema_pbt", quick=dict(count=3200, workers=8), thorough=dict(count=120000, workers=16),
              essential=_ALL_SCHEMAS + ["schema=3.0.0", "file=m.db", "file=p.db", "effective-mutant", "equivalent-mutant"] +
-                       [f + k for f in ("1.x:", "2.x:") for k in ['drop-table', 'rename-table', 'add-table', 'drop-view', 'rename-view', 'add-view', 'add-column', 'drop-column', 'rename-column', 'change-type', 'add-notnull', 'add-default', 'drop-index', 'add-index', 'flip-unique', 'reorder-columns']]),
+                       [f + k for f in ("1.x:", "2.x:") for k in ['drop-table', 'rename-table', 'add-table', 'drop-view', 'rename-view', 'add-view', 'add-column', 'drop-column', 'rename-column', 'change-type', 'add-notnull', 'add-default', 'drop-index', 'add-index', 'flip-unique', 'reorder-columns', 'drop-default',
+                                                                         'change-default', 'drop-notnull', 'drop-pk']] +
+                       ["effective:1.x:drop-default", "effective:1.x:change-default", "effective:1.x:drop-notnull", "effective:2.x:drop-notnull",
+                        "effective:1.x:add-default", "effective:2.x:add-default", "effective:1.x:change-type", "effective:2.x:change-type"]),
         dict(prop="C17.refs", harness="schema_pbt", quick=dict(count="enum", workers=8), thorough=dict(count="enum", workers=8),
              essential=[x for x in _ALL_SCHEMAS if x != "schema=1.6.0"]),
     ]),
@@ -150,7 +154,8 @@ CHECKS = {
                         "third_party_source_id", "streaming_flags", "explicit_lyrics", "active_on_load_loops", "last_edit_time"]]),
         dict(prop="C18.lists", harness="table_pbt", quick=dict(count=4000, workers=8), thorough=dict(count=200000, workers=16),
              essential=_V2_SCHEMAS + ["playlist:add", "playlist:update", "playlist:remove", "playlist:nonexistent", "entity:add_back",
-                                      "entity:clear", "entity:remove-non-last"]),
+                                      "entity:clear", "entity:remove-non-last", "playlist:add-before-sibling", "playlist:move-reorder",
+                                      "playlist:move-reparent", "playlist:move+fields"]),
     ]),
     "C19": dict(level="exploration", parts=[
         dict(prop="REG", harness="api_pbt", quick=dict(count=0, workers=1), thorough=dict(count=0, workers=1)),  # regression scenarios
@@ -201,8 +206,9 @@ RULES = {
            "operations (positional and plain creates, set_parent, set_name, remove_crate, membership operations). Order model: "
            "create_*_after(x) inserts immediately after x; plain create and move append (a move within the same parent may stay or go last); "
            "remove deletes; entries are listed in insertion order minus removed. After every step root_crates(), children(c) and tracks(c) "
-           "must equal the model lists exactly (order included) and the forest invariants of C07 hold. table part: playlist_table add / update / "
-           "remove and playlist_entity_table add_back / remove (first, middle, last) / clear against the same ordered model (track_ids = insertion "
+           "must equal the model lists exactly (order included) and the forest invariants of C07 hold. table part: playlist_table add (at the end or before a chosen sibling) / update (plain, or moving the row to another position "
+           "and/or parent) / remove with child_ids(), root_ids() and every row's next_list_id checked against the ordered sibling model, and "
+           "playlist_entity_table add_back / remove (first, middle, last) / clear against the same ordered model (track_ids = insertion "
            "order minus removed). Non-trivial = an insert/move/remove at a non-last position.",
     "C10": "Case = schema + on-disk library in a scratch directory under /dev/shm + history of crate, membership and track operations (full "
            "snapshots, setters, updates) + up to three close points. At each close point Obs (canonical dump through the public API: every "
@@ -232,8 +238,9 @@ RULES = {
            "in its own layout loads as exactly that schema (right 1.18.0 variant); any other triple -> unsupported_database; no database or "
            "both layouts -> database_not_found; database_exists() consistent. Tolerances: (3,0,0) may load as 3.0.0 or be rejected; a supported "
            "triple in the other layout may load as exactly that schema or be rejected. Non-trivial = triples within distance 1 of a supported one.",
-    "C17": "Case = schema x file (m.db / p.db / Database2/m.db) x one of 16 mutation kinds (drop/rename/add table, view; add/drop/rename "
-           "column; change a column's declared type, add NOT NULL, add DEFAULT; drop/add index, flip an index's uniqueness; reorder two columns) "
+    "C17": "Case = schema x file (m.db / p.db / Database2/m.db) x one of 20 mutation kinds (drop/rename/add table, view; add/drop/rename "
+           "column; change a column's declared type, add NOT NULL, add DEFAULT, drop DEFAULT, change DEFAULT, drop NOT NULL, drop a column's PRIMARY "
+           "KEY (the last four choose among the tables/columns that declare one); drop/add index, flip an index's uniqueness; reorder two columns) "
            "applied to a freshly created on-disk library by the harness's own connection (ALTER TABLE or a writable_schema edit of the stored "
            "DDL found by a top-level comma split); the element is chosen from the library's own sqlite_master / table_info. Mutants failing "
            "integrity_check or not loadable are discarded and counted. Oracle: an independently computed structural fingerprint (tables, views, "
@@ -301,7 +308,8 @@ RULES = {
            "step, for every live row, get(id) equals the row written column by column (except id, last-edit time, and the origin pair when "
            "written empty/0 which must read (library uuid, id)), every get_<col> equals that column, all_ids() equals the live set; columns "
            "a schema lacks throw unsupported_operation; accessors and remove() on a nonexistent row must throw. lists part: playlist_table "
-           "add/get/update/remove and playlist_entity_table add_back/get/remove/clear/track_ids against an ordered model, remove() of unknown "
+           "add (end / before a sibling) / get / update (in place, or moving to another sibling position or parent while other fields change) / "
+           "remove, with next_list_id, child_ids(), root_ids(), descendant_ids() and all_ids() checked against the model, and playlist_entity_table add_back/get/remove/clear/track_ids against an ordered model, remove() of unknown "
            "rows must throw. Non-trivial = a row with >= 40 of 49 columns populated was written (track part) / >= 2 lists or a non-last "
            "entity removal (lists part).",
     "C19": "Each case = (sample_count, sample_rate) decoded from rapidcheck-generated choices: boundary tables (0, 1, 209..211, "
